@@ -13,6 +13,7 @@ import (
 	"strings"
 	"time"
 
+	"github.com/vipnode/vipnode/v2/agent"
 	"github.com/vipnode/vipnode/v2/ethnode"
 	"github.com/vipnode/vipnode/v2/internal/verif/vh"
 	"github.com/vipnode/vipnode/v2/internal/verif/vsched"
@@ -830,6 +831,100 @@ func c15ConcurrentHostile(bound int) vh.Unit {
 	}}
 }
 
+// the agent as the *caller*: whatever a pool answers to the agent's own requests (connect,
+// keep-alive, peer request) - null, wrong types, nulls inside lists, absurd numbers, error objects -
+// the agent process does not panic; it reports an error or carries on
+func c15AgentVsHostilePool(shard, nshards int) vh.Unit {
+	name := fmt.Sprintf("agent-vs-hostile-pool/%d", shard)
+	return vh.Unit{Name: name, Run: func(u *vh.U) {
+		self := vh.Identities()[0]
+		generic := []string{`null`, `{}`, `[]`, `"x"`, `5`, `true`}
+		connects := append(append([]string{}, generic...), `{"pool_version":5}`, `{"pool_version":"v","message":7}`, `{"pool_version":"verif"}`)
+		updates := append(append([]string{}, generic...), `{"invalid_peers":null,"active_peers":null,"balance":null}`, `{"invalid_peers":[null],"active_peers":[null]}`, `{"invalid_peers":"x"}`,
+			`{"balance":{"credit":"x","deposit":null}}`, `{"latest_block_number":-1}`, `{"latest_block_number":18446744073709551616}`, `{"invalid_peers":["","enode://","enode://x@"],"active_peers":["%zz","enode://@:"]}`, `{"active_peers":[]}`)
+		peers := append(append([]string{}, generic...), `{"peers":null}`, `{"peers":[null]}`, `{"peers":[{}]}`, `{"peers":[{"uri":5}]}`, `{"peers":[{"uri":"","ID":""}]}`, `{"peers":[{"uri":"enode://%zz@","ID":"x"}]}`, `{"peers":"x"}`)
+		errorReply := `!error`
+		connects, updates, peers = append(connects, errorReply), append(updates, errorReply), append(peers, errorReply)
+		idx := 0
+		for _, c := range connects {
+			for _, up := range updates {
+				for _, pr := range peers {
+					idx++
+					if idx%nshards != shard {
+						continue
+					}
+					if c != `{"pool_version":"verif"}` && up != updates[0] && pr != peers[0] {
+						continue // (a refused or garbled connect ends the start: vary the rest only after a good one)
+					}
+					if u.Expired() {
+						return
+					}
+					var startErr error
+					s := vsched.Run(vsched.Options{MaxTime: time.Hour, Drain: false}, func() {
+						ca, cb := vh.NewMemPipe(8)
+						agentSide := &jsonrpc2.Remote{Codec: cb, Client: &jsonrpc2.Client{}, Server: &jsonrpc2.Server{}}
+						vsched.GoNamed("agent-serve", func() { agentSide.Serve() })
+						vsched.GoNamed("hostile-pool", func() {
+							for {
+								m, err := ca.ReadMessage()
+								if err != nil {
+									return
+								}
+								if m.Request == nil {
+									continue
+								}
+								raw := `{}`
+								switch m.Request.Method {
+								case "vipnode_connect":
+									raw = c
+								case "vipnode_update":
+									raw = up
+								case "vipnode_peer":
+									raw = pr
+								}
+								reply := &jsonrpc2.Message{ID: m.ID, Version: jsonrpc2.Version, Response: &jsonrpc2.Response{Result: json.RawMessage(raw)}}
+								if raw == errorReply {
+									reply.Response = &jsonrpc2.Response{Error: &jsonrpc2.ErrResponse{Code: -32000, Message: "refused"}}
+								}
+								if ca.WriteMessage(reply) != nil {
+									return
+								}
+							}
+						})
+						node := &recNode{kind: ethnode.Geth, id: self.NodeID}
+						p0 := ethnode.PeerInfo{ID: c18Ids[0]}
+						p0.Network.RemoteAddress = "1.2.3.4:30303"
+						node.peers = []ethnode.PeerInfo{p0}
+						a := &agent.Agent{EthNode: node, NumHosts: 3, StrictPeers: idx%2 == 0, UpdateInterval: time.Hour}
+						startErr = a.Start(pool.Remote(agentSide, self.Key))
+						if startErr == nil {
+							a.UpdatePeers(context.Background(), pool.Remote(agentSide, self.Key))
+							a.Stop()
+						}
+						cb.Close()
+						ca.Close()
+					})
+					u.R.Evaluations++
+					u.R.States++
+					u.R.Transitions += int64(len(s.Trace))
+					u.R.Traces++
+					u.Observe(fmt.Sprintf("hostile-pool started=%v", startErr == nil))
+					desc := fmt.Sprintf("a pool answering the agent's vipnode_connect with %s, vipnode_update with %s, vipnode_peer with %s", c, up, pr)
+					if s.Panic != nil {
+						u.Violate("agent-vs-hostile-pool/panic", fmt.Sprintf("%s: the agent panicked: %v\n%s", desc, s.Panic, firstN(s.PanicStack, 1200)), nil)
+						return
+					}
+					if s.Deadlock || s.Horizon {
+						u.Violate("agent-vs-hostile-pool/wedged", fmt.Sprintf("%s: the agent never returned; threads: %v", desc, s.Blocked), nil)
+						return
+					}
+				}
+			}
+		}
+		u.Sample("the real agent (Start + one forced keep-alive) over a real Remote against a pool answering with every combination of 10 x 15 x 14 reply shapes")
+	}}
+}
+
 func init() {
 	vh.Register(&vh.Check{
 		ID: "C15", Level: "model_checking",
@@ -861,6 +956,9 @@ func init() {
 				us = append(us, c10SerialNamed("no-wedge", vh.Memory, scen, wb))
 			}
 			us = append(us, c15ConcurrentHostile(wb-1))
+			for sh := 0; sh < 4; sh++ {
+				us = append(us, c15AgentVsHostilePool(sh, 4))
+			}
 			n := 4
 			if tier == "thorough" {
 				n = 12
